@@ -293,3 +293,64 @@ def inlining_cases():
     for k in range(0, len(items), 12):
         out.append(core.case([ops[0]] + ops[1 + k:1 + k + 12], kind='evalctx', ctx=meta_ctx, items=items[k:k + 12]))
     return out
+
+
+def lazy_sharing_cases():
+    """systematic part: ONE lazily represented set (power set / product with more than 100 elements) reached through one
+    variable and traversed again while an outer traversal of the same object is in progress (builder, quantifier,
+    imperative iteration, recursion step); the nested traversals never short-circuit"""
+    L = lambda n: N('ID_LOCAL', n)
+    G = lambda n: N('ID_GLOBAL', n)
+    out = []
+    for nbase, lazy, inner in ((7, lambda: N('BOOLEAN', None, [G('X1')]), 'set'), (11, lambda: N('DECART', None, [G('X1'), G('X1')]), 'pair')):
+        g = ty.TypedGen(__import__('random').Random(0))
+        c = g.ctx
+        X1 = ty.S(ty.E('X1'))
+        c.types.update({'X1': X1})
+        c.traits['X1'] = 'nominal'
+        c.vclass.update({'X1': 'value'})
+        c.bases['X1'] = list(range(1, nbase + 1))
+        c.data.update({'X1': frozenset(range(1, nbase + 1))})
+        if inner == 'set':
+            pred = lambda a, b: N('SUBSET_OR_EQ', None, [N('INTERSECTION', None, [L(a), L(b)]), L(b)])          # always true
+            pred2 = lambda a, b: N('OR', None, [N('NOT', None, [N('EQUAL', None, [L(a), L(b)])]), N('SUBSET_OR_EQ', None, [L(a), L(b)])])
+        else:
+            pred = lambda a, b: N('OR', None, [N('EQUAL', None, [N('SMALLPR', [1], [L(a)]), N('SMALLPR', [1], [L(b)])]),
+                                               N('NOT', None, [N('EQUAL', None, [L(a), L(b)])])])                # always true
+            pred2 = lambda a, b: N('IN', None, [N('NT_TUPLE', None, [N('SMALLPR', [2], [L(a)]), N('SMALLPR', [1], [L(b)])]), L('s')])
+        bodies = {
+            'declarative': lambda p: N('NT_DECLARATIVE_EXPR', None, [L('a'), L('s'), N('FORALL', None, [L('b'), L('s'), p('a', 'b')])]),
+            'declarative-exists': lambda p: N('NT_DECLARATIVE_EXPR', None, [L('a'), L('s'), N('NOT', None, [N('EXISTS', None, [L('b'), L('s'), N('NOT', None, [p('a', 'b')])])])]),
+            'imperative': lambda p: N('NT_IMPERATIVE_EXPR', None, [L('a'), N('ITERATE', None, [L('a'), L('s')]), N('FORALL', None, [L('b'), L('s'), p('a', 'b')])]),
+            'quantifier': lambda p: N('FORALL', None, [L('a'), L('s'), N('FORALL', None, [L('b'), L('s'), p('a', 'b')])]),
+            'card-of-builder': lambda p: N('CARD', None, [N('NT_DECLARATIVE_EXPR', None, [L('a'), L('s'), N('EQUAL', None, [
+                N('CARD', None, [N('NT_DECLARATIVE_EXPR', None, [L('b'), L('s'), p('a', 'b')])]), N('CARD', None, [L('s')])])])]),
+        }
+        binders = {
+            'assign': lambda body: N('NT_IMPERATIVE_EXPR', None, [body, N('ASSIGN', None, [L('s'), lazy()])]),
+            'iterate-singleton': lambda body: N('NT_IMPERATIVE_EXPR', None, [body, N('ITERATE', None, [L('s'), N('NT_ENUMERATION', None, [lazy()])])]),
+            'quantified': lambda body: N('FORALL', None, [L('s'), N('NT_ENUMERATION', None, [lazy()]),
+                                                           body if rg.is_logic(body) else N('EQUAL', None, [body, body])]),
+            'builder-over-singleton': lambda body: N('NT_DECLARATIVE_EXPR', None, [L('s'), N('NT_ENUMERATION', None, [lazy()]),
+                                                                                  body if rg.is_logic(body) else N('EQUAL', None, [body, L('s')])]),
+        }
+        ref = c.ref()
+        ops = [{'op': 'rs.ctx', 'ctx': 'c', 'spec': c.spec()}]
+        items = []
+        for bn, bind in binders.items():
+            for dn, body in bodies.items():
+                for pn, p in (('p1', pred), ('p2', pred2)):
+                    tree = bind(body(p))
+                    if bn in ('assign', 'iterate-singleton') and rg.is_logic(body(p)):
+                        tree = N('NT_DECLARATIVE_EXPR', None, [L('s'), N('NT_ENUMERATION', None, [lazy()]), body(p)])
+                    res = rt.check_expression(tree, ref)
+                    if res['status'] != 'ok':
+                        continue
+                    text, _sp = rg.render(tree, 'MATH', None, **STYLES[0])
+                    ops.append({'op': 'rs.eval', 'ctx': 'c', 'text': text, 'syntax': 'MATH'})
+                    items.append({'tree': tree, 'base': True, 'variant': 'math', 'mut': f'lazy-sharing:{bn}:{dn}:{pn}', 'text': text, 'syntax': 'MATH'})
+        meta_ctx = {'types': c.types, 'funcs': c.funcs, 'traits': c.traits, 'vclass': c.vclass, 'bodies': c.bodies,
+                    'data': {k: (v if isinstance(v, bool) else sm.enum_spec(v)) for k, v in c.data.items()}}
+        for k in range(0, len(items), 4):
+            out.append(core.case([ops[0]] + ops[1 + k:1 + k + 4], kind='evalctx', ctx=meta_ctx, items=items[k:k + 4]))
+    return out
